@@ -186,6 +186,22 @@ class C18Bounded(Bounded):
                     if got != want and (want or not v6):          # IPv6: every member is matched (the property does not ask for exactness there)
                         fail("non-native", f"backend variant {X.__name__} without native CIDR expression, networks {nl}: query {q[0]!r} {'matches' if got else 'does not match'} the address {a}, which is {'inside' if want else 'outside'}", [X.__name__, nl, a])
                         break
+        # value transformations of a pipeline are for strings / numbers: a network stays a network (native expression and expansion unchanged)
+        from sigma.processing.pipeline import ProcessingPipeline
+        for tr_ in ({"type": "convert_type", "target_type": "str"}, {"type": "case", "method": "lower"}, {"type": "case", "method": "upper"}, {"type": "replace_string", "regex": "0", "replacement": "9"},
+                    {"type": "map_string", "mapping": {"10.0.0.0/8": "x"}}, {"type": "regex"}, {"type": "value_placeholders"}, {"type": "wildcard_placeholders"}, {"type": "convert_type", "target_type": "num"}):
+            for netw in ("10.0.0.0/8", "2001:DB8::/32", "192.168.1.0/28"):
+                ev += 1
+                nontriv += 1
+                rule = f"title: t\nlogsource:\n  category: c\ndetection:\n  s:\n    f|cidr: '{netw}'\n  condition: s\n"
+                for Bk in (B, NA, NB_):
+                    try:
+                        want_q = Bk().convert(SigmaCollection.from_yaml(rule))
+                        got_q = Bk(ProcessingPipeline.from_dict({"name": "p", "priority": 10, "vars": {"x": ["y"]}, "transformations": [dict(tr_)]})).convert(SigmaCollection.from_yaml(rule))
+                    except Exception as e:
+                        got_q, want_q = f"{type(e).__name__}: {e}", None
+                    if got_q != want_q:
+                        fail("pipeline-on-cidr", f"pipeline with the value transformation {tr_} on f|cidr: {netw} ({Bk.__name__}): {got_q}, without the pipeline {want_q} - a network is not a string for value transformations", [tr_["type"], netw, Bk.__name__])
         # history: the native expression is still used after a negated condition was converted in not-equals mode
         class NB(TextQueryTestBackend):
             cidr_expression = "{field}|{value}|{network}|{prefixlen}|{netmask}"
